@@ -1316,4 +1316,14 @@ theorem rot90Fld_valid (f R : Fld) (a b : Nat) (hd : DimsOk f) (hvs : f.valid.sh
   simp only []
   rw [hvs]
 
+/-- `D` along an open axis is C04's index-level spec of the grid line -/
+theorem D_eq_spec (f : Fld) (ax o c : Nat) (i : List Nat) (hper : periodic f ax = false) (hi : i.getD ax 0 < f.mesh.nAt ax) :
+    D f ax o c i = diffSpec o (f.mesh.cellAt ax) (f.mesh.nAt ax) (fun j => (f.data.line ax i j).getD c 0)
+      (fun j => f.valid.line ax i j) (i.getD ax 0) := by
+  rw [D_eq_cells, hper]
+  unfold diffLine'
+  simp only [Bool.false_eq_true, if_false, if_true]
+  rw [diffLine_getD_spec _ _ _ _ (by rw [lineCells_length]; exact hi), lineCells_length]
+  exact diffSpec_congr _ _ _ _ _ _ _ _ hi (fun j hj => valOf_lineCells f ax i c j hj) (fun j hj => okOf_lineCells f ax i c j hj)
+
 end DFV.C05
